@@ -29,7 +29,21 @@ pub fn make_engine(case: &Case, oracles: Oracles) -> Result<Engine, Fail> {
             let (mut bytes, model) = crate::synth::foreign_start(*seed, case.version, &case.pool)?;
             let parsed = crate::refparse::parse(&bytes).map_err(|e| Fail::new("harness|parse", e))?;
             for (d, sel) in devs.iter() {
-                let dev = crate::props::c16::ALL_DEVS[*d as usize % crate::props::c16::ALL_DEVS.len()];
+                let nd = crate::props::c16::ALL_DEVS.len() + 1;
+                if *d as usize % nd == nd - 1 {
+                    // legacy writers: uninitialised upper 32 bits of a version-3 stream size
+                    // (MS-CFB 2.6.3 recommends that readers ignore them; Version::stream_len_mask does)
+                    if case.version == 3 {
+                        let streams: Vec<usize> = parsed.entries.iter().enumerate().filter(|(_, e)| e.typ == 2).map(|(i, _)| i).collect();
+                        if !streams.is_empty() {
+                            let i = streams[pick(*sel, streams.len())];
+                            let off = parsed.entry_offsets[i] + 124;
+                            bytes[off..off + 4].copy_from_slice(&[0xEF, 0xBE, 0xAD, (*sel as u8) | 1]);
+                        }
+                    }
+                    continue;
+                }
+                let dev = crate::props::c16::ALL_DEVS[*d as usize % nd];
                 // deviations that a known finding says are not tolerated in combination
                 if matches!(dev, crate::props::c16::Dev::NumFatPlus | crate::props::c16::Dev::NumFatMany) {
                     continue;
@@ -81,7 +95,7 @@ pub fn run_ops(eng: &mut Engine, ops: &[Op], mut hook: Option<Hook>) -> (Result<
     let r = (|| -> Result<(), Fail> {
         eng.close_all_handles()?;
         eng.check_live_dump()?;
-        if eng.oracles.checker_every > 0 {
+        if eng.oracles.checker_every > 0 && !eng.oracles.no_strict {
             run_checker(eng, "end of history")?;
         }
         if eng.oracles.final_reopen || eng.oracles.reopen_check {
@@ -157,7 +171,7 @@ fn after_step(eng: &mut Engine, i: usize, op: &Op, boundaries: &mut usize) -> Re
             eng.stats.bump("mutation_after_replace_after_table_change");
         }
     }
-    if o.checker_every > 0 && (i + 1) % o.checker_every == 0 {
+    if o.checker_every > 0 && !o.no_strict && (i + 1) % o.checker_every == 0 {
         run_checker(eng, "after op")?;
     }
     if o.dump_every > 0 && (i + 1) % o.dump_every == 0 {
